@@ -163,6 +163,19 @@ class VLine(V):
     def __init__(s, t): s.t = t
 
 
+# A text under construction (the writer side of T7 / T8): whole lines only.  Line i has ntok[i] blank-separated tokens tok[i][0 .. ntok[i]);
+# colon[i] records whether the line contains a ':' (the reader deletes colons before splitting, except on the header line).
+Text = z3.Datatype('Text')
+Text.declare('mk', ('nlines', I), ('ntok', z3.ArraySort(I, I)), ('tok', z3.ArraySort(I, z3.ArraySort(I, Tok))), ('colon', z3.ArraySort(I, B)))
+Text = Text.create()
+
+
+class VText(V):
+    """A string built line by line, seen through the lexical layer (term of datatype Text)."""
+    def __init__(s, t): s.t = t
+    def __repr__(s): return 'VText(%s)' % s.t
+
+
 class VExt(V):
     """Opaque external object (parser, solver handle, file ...)."""
     def __init__(s, tag, data=None): s.tag = tag; s.data = data
@@ -195,6 +208,7 @@ def fresh_of_kind(name, k):
         return VList(fresh(name + '.len', I), fresh(name + '.arr', z3.ArraySort(I, sort_of(k[1]))), k[1])
     if isinstance(k, tuple) and k[0] == 'tuple':
         return VTuple([fresh_of_kind('%s.%d' % (name, i), x) for i, x in enumerate(k[1:])])
+    if k == 'text': return VText(fresh(name, Text))
     if isinstance(k, tuple) and k[0] == 'str':      # opaque string
         return VStr([('opaque', fresh(name, I))])
     if isinstance(k, tuple) and k[0] == 'map':
@@ -222,6 +236,7 @@ def fresh_like(name, v):
     if isinstance(v, VNone): return v
     if isinstance(v, VMap): return VMap(fresh(name + '.has', v.has.sort()), fresh(name + '.val', v.val.sort()))
     if isinstance(v, VStr): return VStr([('opaque', fresh(name, I))])
+    if isinstance(v, VText): return VText(fresh(name, Text))
     raise TypeError('cannot havoc %r' % (v,))
 
 
